@@ -9,7 +9,7 @@ LEVEL_TEXT = ("What Cello adds to C formatting is the scanner and the sinks, and
               "with the next argument fetched through the matching accessor; the returned position is start + the sum of the lengths the sink reports; too few arguments raise FormatError; "
               "every read stays inside the format and every write inside the scratch buffer. String_Format_To (room for the text and its terminator, C16 harness) and File_Format_To "
               "(C20 harness) are the two sinks. That the characters equal printf's is libc's (assumed).")
-NOTE = "libc v*printf semantics assumed; formats are an enumerated set, not all strings of the grammar; container show under contract for Array, List and Tuple (Table and Tree not)"
+NOTE = "libc v*printf semantics assumed; formats are an enumerated set, not all strings of the grammar; container show under contract for Array, List, Tuple, Table (capacity <= 3 (5)) and Tree (<= 4 nodes)"
 EXPLANATION = LEVEL_TEXT
 TRUSTED = ["libc vsnprintf/vsprintf/vfprintf write what printf writes for a specification and its value"]
 
@@ -58,7 +58,8 @@ FORMATS = ["", "plain text", "%%", "100%% sure", "%d", "%i items", "x=%5d;", "%-
 
 def jobs(tier, prefix="C14"):
     from props import seqcases
-    J = seqcases.array_jobs(tier, "C14")
+    from props import C02, C03
+    J = seqcases.array_jobs(tier, "C14") + C02.table_jobs(tier, "C14") + C03.tree_jobs(tier, "C14")
     L = ["src/Exception.c", "src/Num.c", "src/String.c", "src/Pointer.c", "src/Iter.c", "stubs/throw.c", "stubs/libc_str.c"]
     fmts = FORMATS if tier == "thorough" else FORMATS
     for n, f in enumerate(fmts):
